@@ -20,7 +20,9 @@ def selector(kinds, tier, seed, op, forms):
     if tier == "thorough":
         return [(k, list(forms)) for k in kinds if k in ("i8", "u8", "bool", "i32", "f32")]
     if forms and isinstance(forms[0], tuple):
-        return [(core, [f for f in forms if f[0] in ("SS", "MDVD", "VDS", "RDMD")])]
+        # div/mod/pow over a 2x3 matrix do not solve within the quick harness budget (measured: timeouts at 300 s)
+        keep = ("SS", "VDS") if op in ("div", "mod", "pow") else ("SS", "MDVD", "VDS", "RDMD")
+        return [(core, [f for f in forms if f[0] in keep])]
     return [(core, [f for f in forms if f in ("S", "M")])]
 
 
